@@ -14,6 +14,10 @@
 (*       parseArtifactResponse / ParseXMLResponse / parseResponse /        *)
 (*       decryptElement / parseAssertion / validateAssertion /             *)
 (*       validateAudienceRestriction                                       *)
+(*   service_provider.go  validateSignature (called for the                *)
+(*       ArtifactResponse, the Response, every Assertion and the           *)
+(*       LogoutResponse) / getIDPSigningCerts / getCertBasedOnFingerprint /*)
+(*       parseCert / fingerprint, then goxmldsig verifyCertificate         *)
 (*   service_provider.go  ValidateLogoutResponseRequest / Form / Redirect /*)
 (*       validateLogoutResponse                                            *)
 (*   identity_provider.go NewIdpAuthnRequest / Validate / getACSEndpoint / *)
@@ -23,12 +27,19 @@
 (*       samlidp/util.go getSPMetadata, ServeIDPInitiated,                 *)
 (*       xml.Unmarshal into EntityDescriptor, and the SP's use of parsed   *)
 (*       IdP metadata (getIDPSigningCerts, Get*BindingLocation)            *)
+(*   metadata.go  EntitiesDescriptor.UnmarshalXML: the per-decoder count   *)
+(*       of the EntitiesDescriptor elements being unmarshalled, walked     *)
+(*       token by token over the nesting shape of the document             *)
 (*                                                                         *)
 (* The document is a record of optional parts, each present or absent;     *)
 (* every VALUE that is present is the valid one (right issuer, fresh       *)
 (* instant, trusted signature re-applied after the parts were removed), so *)
 (* that validation proceeds as deep as the absent parts allow.  The byte   *)
 (* string is a framing class, the artifact resolver a behaviour class.     *)
+(* Two more dimensions: how the SP is configured to trust the IdP          *)
+(* (metadata certificates, a pinned certificate, a pinned fingerprint)     *)
+(* crossed with what the ds:KeyInfo of every signature in the message      *)
+(* holds; and the nesting shape x depth of EntitiesDescriptor documents.   *)
 (*                                                                         *)
 (* Named deviations.                                                       *)
 (*   Unguarded \subseteq Sites   dereference sites at which the modelled   *)
@@ -38,12 +49,18 @@
 (*       on the pinned tree; TLC then refutes NoPanic.                     *)
 (*   Unwrapped \subseteq Wrappers  functions that return their error       *)
 (*       without wrapping it in InvalidResponseError ({} when registered). *)
+(*   DepthRestore  what EntitiesDescriptor.UnmarshalXML does with the      *)
+(*       per-decoder count when an element is finished: "parent" (the      *)
+(*       REQUIRED design: the count of the enclosing element is put back), *)
+(*       "wipe" (the entry is deleted: the next sibling counts from zero), *)
+(*       "nobound" (no count at all - the pinned tree).  Registered:       *)
+(*       "parent"; with the others TLC refutes NoPanic (Totality_round2).  *)
 (*                                                                         *)
 (* The Properties section is written from the statement of C09 only.       *)
 (***************************************************************************)
 EXTENDS Integers, Sequences, FiniteSets, TLC, Json
 
-CONSTANTS Tier, Unguarded, Unwrapped
+CONSTANTS Tier, Unguarded, Unwrapped, DepthRestore
 
 \* dereference sites: <consumer>:<part whose absence reaches it>
 Sites == {"RespRootNil",       \* ParseXMLResponse: doc.Root() of a rootless document
@@ -58,19 +75,33 @@ Sites == {"RespRootNil",       \* ParseXMLResponse: doc.Root() of a rootless doc
           "LogoutIssuerNil",   \* validateLogoutResponse: resp.Issuer.Value
           "AuthnIssuerNil",    \* IdpAuthnRequest.Validate: req.Request.Issuer.Value
           "EncCertIndex",      \* getSPEncryptionCert: X509Certificates[0] of a use="encryption" descriptor
-          "AnyCertIndex"}      \* getSPEncryptionCert: X509Certificates[0] of a descriptor without use
+          "AnyCertIndex",      \* getSPEncryptionCert: X509Certificates[0] of a descriptor without use
+          "FpCertElNil",       \* getCertBasedOnFingerprint: x509CertEl.Child of a signature without X509Certificate element
+          "FpCertChildIndex",  \* getCertBasedOnFingerprint: x509CertEl.Child[0] of an empty X509Certificate element
+          "FpCertChildType",   \* getCertBasedOnFingerprint: Child[0].(*etree.CharData) when the child is not text
+          "StripKeyInfoNil"}   \* validateSignature: sigEl.RemoveChild(keyInfo) of a signature without KeyInfo
 \* at these the design's guard means "no constraint, go on" (an absent Issuer is not compared, a
 \* descriptor without certificate is passed over); at all others it means "reject"
-SkipSites == {"RespIssuerNil", "ArtIssuerNil", "EncCertIndex", "AnyCertIndex"}
+SkipSites == {"RespIssuerNil", "ArtIssuerNil", "EncCertIndex", "AnyCertIndex", "StripKeyInfoNil"}
 
 Wrappers == {"handleArtifactRequest", "parseResponseHTTP", "ParseXMLArtifactResponse",
              "parseArtifactResponse", "ParseXMLResponse"}
 
 ASSUME Unguarded \subseteq Sites /\ Unwrapped \subseteq Wrappers
+ASSUME DepthRestore \in {"parent", "wipe", "nobound"}
 
 \* fired: the dereference sites reached, in order, whose part was absent (where unguarded code panics)
-VARIABLES in, pc, sigReq, hasSig, ai, cj, firstFail, accepted, asn, err, verdict, step, fired
-vars == <<in, pc, sigReq, hasSig, ai, cj, firstFail, accepted, asn, err, verdict, step, fired>>
+VARIABLES in, pc, sigReq, hasSig, ai, cj, firstFail, accepted, asn, err, verdict, step, fired,
+          \* validateSignature as a subroutine: the element it was called for, where it returns to, what it
+          \* returned ("ok" | "absent": errSignatureElementNotPresent | "bad": any other error), and the
+          \* result parseResponse keeps for the Response until it has looked at the attributes
+          vsEl, vsRet, sigRes, respSig,
+          \* EntitiesDescriptor.UnmarshalXML: position in the document, the per-decoder count, the `depth`
+          \* local of every UnmarshalXML call that is on the stack
+          pos, ctr, frames
+sv == <<vsEl, vsRet, sigRes, respSig>>
+nv == <<pos, ctr, frames>>
+vars == <<in, pc, sigReq, hasSig, ai, cj, firstFail, accepted, asn, err, verdict, step, fired, sv, nv>>
 
 ----------------------------------------------------------------------------
 (* the abstract documents *)
@@ -105,13 +136,15 @@ RespEntries   == {"xml", "post", "artxml", "artifact"}
 LogoutEntries == {"form", "redirect", "req-post", "req-get"}
 AuthnEntries  == {"validate-get", "validate-post", "sso-get", "sso-post"}
 SPMDEntries   == {"parse", "fetch", "unmarshal-sso", "put-sso", "unmarshal-make", "unmarshal-idpinit"}
+NestEntries   == {"parse", "fetch", "put-sso", "unmarshal-entities"}
 IDPMDEntries  == {"parse-spuse"}
 
 B64Entries     == {"post"} \cup LogoutEntries \cup AuthnEntries
 DeflateEntries == {"redirect", "req-get", "validate-get", "sso-get"}
 
-RespIn(fam, e, f, r, al, env, resp) ==
-  [fam |-> fam, entry |-> e, framing |-> f, res |-> r, allowIdp |-> al, env |-> env, resp |-> resp]
+RespInT(fam, e, f, r, al, env, resp, t, k) ==
+  [fam |-> fam, entry |-> e, framing |-> f, res |-> r, allowIdp |-> al, env |-> env, resp |-> resp, trust |-> t, ki |-> k]
+RespIn(fam, e, f, r, al, env, resp) == RespInT(fam, e, f, r, al, env, resp, "md1", "cert")
 
 Lo(iss, dest, status, sig, ii, irt) == [iss |-> iss, dest |-> dest, status |-> status, sig |-> sig, ii |-> ii, irt |-> irt]
 GoodLo == Lo(TRUE, TRUE, "ok", TRUE, TRUE, TRUE)
@@ -133,6 +166,48 @@ SPMD(wrap, nsp, acs, attrcs, kds) == [wrap |-> wrap, nsp |-> nsp, acs |-> acs, a
 GoodSPMD == SPMD("entity", 1, 1, "absent", <<>>)
 \* IdP metadata as trusted by the SP
 IDPMD(wrap, nidp, sso, kds) == [wrap |-> wrap, nidp |-> nidp, sso |-> sso, kds |-> kds]
+
+\* how the SP is configured to trust the IdP (validateSignature :1292-1311; the signer is the trusted key)
+\*   md1 / md2   certificates of IDPMetadata: one signing descriptor / several (the signer's is among them)
+\*   pin         IDPCertificate (the metadata carries another certificate)
+\*   fp256 / fp512  IDPCertificateFingerprint + IDPCertificateFingerprintAlgorithm (likewise)
+TrustCls == {"md1", "md2", "pin", "fp256", "fp512"}
+FpTrust  == {"fp256", "fp512"}
+NRoots(t) == IF t = "md2" THEN 2 ELSE 1
+\* what ds:Signature/ds:KeyInfo holds (it is outside the digest: the signature value stays valid)
+SigKiCls == {"cert",         \* X509Data/X509Certificate with the signer's certificate
+             "two",          \* two X509Certificate elements, the signer's first
+             "certcomment",  \* the certificate text followed by a comment (two child tokens)
+             "empty",        \* <ds:X509Certificate/>
+             "ws",           \* X509Certificate with white space only
+             "comment",      \* X509Certificate whose only child is a comment
+             "nocert",       \* X509Data without X509Certificate
+             "nokeyinfo",    \* no KeyInfo
+             "rsakv",        \* KeyInfo with KeyValue/RSAKeyValue only
+             "garbage",      \* X509Certificate whose text is not a certificate
+             "other"}        \* a well-formed certificate of another key
+NoCertEl == {"nocert", "nokeyinfo", "rsakv"}             \* no X509Certificate element at all
+\* child tokens of the (first) X509Certificate element
+NChildren(k) == CASE k = "empty" -> 0 [] k = "certcomment" -> 2 [] OTHER -> 1
+
+\* nesting of EntitiesDescriptor elements.  Shapes: one child per level | a completed empty sibling
+\* before the nested one at every level | several completed siblings at the top, then a chain | a
+\* completed sibling after the nested one at every level.  Depth classes are relative to the bound
+\* of the design and to the depth at which unbounded recursion exhausts the goroutine stack; the
+\* model walks scaled-down documents (the harness maps the classes to 999 / 1000 / 1001 / 5000 /
+\* several 100 000 levels - the last in a child process).
+NestShapes == {"chain", "ladder", "widedeep", "sibafter"}
+DepthCls   == {"below", "at", "above", "far", "huge"}
+NestBound  == 3      \* maxEntitiesDescriptorDepth
+NestStack  == 6      \* UnmarshalXML calls the stack has room for
+Levels(d)  == CASE d = "below" -> 2 [] d = "at" -> 3 [] d = "above" -> 4 [] d = "far" -> 6 [] d = "huge" -> 9
+Rep(n, q)  == [i \in 1..(n * Len(q)) |-> q[((i - 1) % Len(q)) + 1]]
+\* "o" start tag, "c" end tag of an EntitiesDescriptor (each start tag is one UnmarshalXML call)
+NestDoc(shape, n) ==
+  CASE shape = "chain"    -> Rep(n, <<"o">>) \o Rep(n, <<"c">>)
+    [] shape = "ladder"   -> <<"o">> \o Rep(n - 1, <<"o", "c", "o">>) \o Rep(n, <<"c">>)
+    [] shape = "widedeep" -> <<"o">> \o Rep(3, <<"o", "c">>) \o Rep(n - 1, <<"o">>) \o Rep(n, <<"c">>)
+    [] shape = "sibafter" -> Rep(n, <<"o">>) \o <<"c">> \o Rep(n - 1, <<"o", "c", "c">>)
 
 ----------------------------------------------------------------------------
 (* input families *)
@@ -192,11 +267,29 @@ InitFrameFam ==
   \E e \in FrameEntries, f \in FramingCls :
     /\ Sensible(e, f)
     /\ in = [fam |-> "frame", entry |-> e, framing |-> f, res |-> "ok", allowIdp |-> FALSE, env |-> GoodEnv,
-             resp |-> [GoodResp EXCEPT !.sig = TRUE], lo |-> GoodLo, rq |-> GoodRq, md |-> GoodSPMD]
+             resp |-> [GoodResp EXCEPT !.sig = TRUE], lo |-> GoodLo, rq |-> GoodRq, md |-> GoodSPMD,
+             trust |-> "md1", ki |-> "cert"]
 
 InitLogoutFam ==
   \E e \in LogoutEntries, iss \in BOOLEAN, dest \in BOOLEAN, st \in StatusCls, sg \in BOOLEAN, ii \in BOOLEAN, irt \in BOOLEAN :
-    in = [fam |-> "logout", entry |-> e, framing |-> "ok", lo |-> Lo(iss, dest, st, sg, ii, irt)]
+    in = [fam |-> "logout", entry |-> e, framing |-> "ok", lo |-> Lo(iss, dest, st, sg, ii, irt), trust |-> "md1", ki |-> "cert"]
+
+\* every trust configuration x every KeyInfo shape, for every place a signature can be (ArtifactResponse,
+\* Response, Assertion - plaintext or encrypted), through every response and logout entry point; the
+\* assertion complete or without Conditions (what lies behind the signature is still reached)
+InitTrustFam(full) ==
+  \/ \E e \in RespEntries, t \in TrustCls, k \in SigKiCls, es \in BOOLEAN, rs \in BOOLEAN, as \in BOOLEAN,
+        en \in EncCls, a \in (IF full THEN {GoodAssn, NoCond, NoSubj, NoData} ELSE {GoodAssn, NoCond}) :
+       /\ (es => e \in {"artxml", "artifact"})
+       /\ in = RespInT("trust", e, "ok", "ok", FALSE, [GoodEnv EXCEPT !.sig = es],
+                       [GoodResp EXCEPT !.sig = rs, !.assns = <<[a EXCEPT !.sig = as, !.enc = en]>>], t, k)
+  \/ \E e \in LogoutEntries, t \in TrustCls, k \in SigKiCls, sg \in BOOLEAN, iss \in BOOLEAN :
+       in = [fam |-> "trust", entry |-> e, framing |-> "ok", lo |-> [GoodLo EXCEPT !.sig = sg, !.iss = iss], trust |-> t, ki |-> k]
+\* (thorough) every subset of the Response's parts under every trust configuration x KeyInfo shape
+InitTrustRespFam ==
+  \E t \in TrustCls, k \in SigKiCls, as \in BOOLEAN :
+    RespParts(LAMBDA iss, dest, irt, st, sg :
+      in = RespInT("trust", "xml", "ok", "ok", FALSE, GoodEnv, Resp(iss, dest, irt, st, sg, <<[GoodAssn EXCEPT !.sig = as]>>), t, k))
 
 InitAuthnFam ==
   \E e \in AuthnEntries, iss \in BOOLEAN, nip \in BOOLEAN, dest \in BOOLEAN, au \in BOOLEAN, ai_ \in BOOLEAN,
@@ -220,21 +313,30 @@ InitIDPMDFam(full) ==
   \/ \E w \in {"entity", "entities", "entities0", "nested"} :
        in = [fam |-> "idpmd", entry |-> "parse-spuse", framing |-> "ok", md |-> IDPMD(w, IF w = "nested" THEN 1 ELSE 0, FALSE, <<>>)]
 
+\* every nesting shape x depth class of EntitiesDescriptor elements through every metadata consumer;
+\* an entity with the wanted role is the last child of the outermost element
+InitNestFam ==
+  \E e \in NestEntries, sh \in NestShapes, d \in DepthCls :
+    in = [fam |-> "nest", entry |-> e, framing |-> "ok", shape |-> sh, depth |-> d, rq |-> GoodRq, md |-> GoodSPMD]
+
 InitQ == \/ InitAssnFam({"xml"}, BOOLEAN)
          \/ InitAssnFam({"post", "artxml", "artifact"}, {FALSE})
          \/ InitRespFam(RespEntries)
          \/ InitArtFam \/ InitFrameFam \/ InitLogoutFam \/ InitAuthnFam
          \/ InitSPMDFam(FALSE) \/ InitIDPMDFam(FALSE)
+         \/ InitTrustFam(FALSE) \/ InitNestFam
 InitT == \/ InitAssnFam(RespEntries, BOOLEAN)
          \/ InitRespFam(RespEntries)
          \/ InitCrossFam
          \/ InitArtFam \/ InitFrameFam \/ InitLogoutFam \/ InitAuthnFam
          \/ InitSPMDFam(TRUE) \/ InitIDPMDFam(TRUE)
+         \/ InitTrustFam(TRUE) \/ InitTrustRespFam \/ InitNestFam
 
 IsResp   == in.entry \in RespEntries
 IsLogout == in.entry \in LogoutEntries
 IsAuthn  == in.entry \in AuthnEntries
-IsSPMD   == in.entry \in SPMDEntries
+IsSPMD   == in.entry \in SPMDEntries \cup NestEntries
+IsNest   == in.fam = "nest"
 IsIDPMD  == in.entry \in IDPMDEntries
 
 Start == CASE in.entry = "artifact" -> "Resolve"
@@ -246,12 +348,14 @@ Init == /\ CASE Tier = "q" -> InitQ [] Tier = "t" -> InitT
         /\ pc = Start
         /\ sigReq = TRUE /\ hasSig = FALSE /\ ai = 1 /\ cj = 1 /\ firstFail = "none" /\ accepted = 0
         /\ asn = "nil" /\ err = "nil" /\ verdict = "none" /\ step = "none" /\ fired = <<>>
+        /\ vsEl = "none" /\ vsRet = "none" /\ sigRes = "none" /\ respSig = "none"
+        /\ pos = 1 /\ ctr = 0 /\ frames = <<>>
 
 ----------------------------------------------------------------------------
 (* outcomes *)
 
 Keep == UNCHANGED in
-GotoF(l) == pc' = l /\ UNCHANGED <<sigReq, hasSig, ai, cj, firstFail, accepted, asn, err, verdict, step>>
+GotoF(l) == pc' = l /\ UNCHANGED <<sigReq, hasSig, ai, cj, firstFail, accepted, asn, err, verdict, step, sv, nv>>
 Goto(l) == GotoF(l) /\ UNCHANGED fired
 
 \* the wrapper through which an error of the response-parsing code reaches the caller
@@ -260,14 +364,14 @@ ErrKind(w) == IF w = "plain" \/ w \in Unwrapped THEN "plain" ELSE "IRE"
 
 \* return an error through wrapper w ("plain": the code returns the bare error here)
 RejectF(why, w) == /\ pc' = "done" /\ verdict' = "error" /\ step' = why /\ err' = ErrKind(w) /\ asn' = "nil"
-                   /\ UNCHANGED <<sigReq, hasSig, ai, cj, firstFail, accepted>>
+                   /\ UNCHANGED <<sigReq, hasSig, ai, cj, firstFail, accepted, sv, nv>>
 Reject(why, w) == RejectF(why, w) /\ UNCHANGED fired
 Succeed == /\ pc' = "done" /\ verdict' = "ok" /\ step' = "none" /\ err' = "nil"
            /\ asn' = IF IsResp THEN "set" ELSE "nil"
-           /\ UNCHANGED <<sigReq, hasSig, ai, cj, firstFail, accepted, fired>>
+           /\ UNCHANGED <<sigReq, hasSig, ai, cj, firstFail, accepted, fired, sv, nv>>
 Panic(site) == /\ pc' = "Panic" /\ verdict' = "panic" /\ step' = site
                /\ fired' = Append(fired, site)
-               /\ UNCHANGED <<sigReq, hasSig, ai, cj, firstFail, accepted, asn, err>>
+               /\ UNCHANGED <<sigReq, hasSig, ai, cj, firstFail, accepted, asn, err, sv, nv>>
 
 \* a dereference of an optional part: unguarded code panics when the part is absent; the
 \* design's guard either rejects or (SkipSites) imposes no constraint
@@ -276,6 +380,20 @@ Deref(site, absent, w, next) ==
   ELSE IF site \in Unguarded THEN Panic(site)
   ELSE /\ fired' = Append(fired, site)
        /\ IF site \in SkipSites THEN GotoF(next) ELSE RejectF(site, w)
+
+\* validateSignature is called for element el; it hands its result to the step ret
+CallVS(el, ret) == /\ pc' = "VSFind" /\ vsEl' = el /\ vsRet' = ret /\ sigRes' = "none"
+                   /\ UNCHANGED <<sigReq, hasSig, ai, cj, firstFail, accepted, asn, err, verdict, step, fired, respSig, nv>>
+ReturnVSF(res) == /\ pc' = vsRet /\ sigRes' = res
+                  /\ UNCHANGED <<sigReq, hasSig, ai, cj, firstFail, accepted, asn, err, verdict, step, vsEl, vsRet, respSig, nv>>
+ReturnVS(res) == ReturnVSF(res) /\ UNCHANGED fired
+\* a dereference inside validateSignature: the design's guard makes validateSignature return an error
+\* (SkipSites: go on)
+DerefVS(site, absent, next) ==
+  IF ~absent THEN Goto(next)
+  ELSE IF site \in Unguarded THEN Panic(site)
+  ELSE /\ fired' = Append(fired, site)
+       /\ IF site \in SkipSites THEN GotoF(next) ELSE ReturnVSF("bad")
 
 ----------------------------------------------------------------------------
 (* framing: base64, bounded inflate, round-trip validation, parse, root *)
@@ -354,10 +472,14 @@ ArtIssuer == /\ pc = "ArtIssuer" /\ Keep
 \* :898 Status and StatusCode are values: absent ones read as ""
 ArtStatus == /\ pc = "ArtStatus" /\ Keep
              /\ IF E.status # "ok" THEN Reject("ArtStatus", "parseArtifactResponse") ELSE Goto("ArtSig")
-\* :904 a valid signature on the ArtifactResponse lifts the requirement from what is inside
-ArtSig == /\ pc = "ArtSig" /\ Keep
-          /\ sigReq' = ~E.sig /\ pc' = "ArtInner"
-          /\ UNCHANGED <<hasSig, ai, cj, firstFail, accepted, asn, err, verdict, step, fired>>
+\* :911 validateSignature(artifactResponseEl)
+ArtSig == /\ pc = "ArtSig" /\ Keep /\ CallVS("art", "ArtSigDecide")
+\* :912 a valid signature on the ArtifactResponse lifts the requirement from what is inside, an absent
+\* one leaves it, any other outcome is an error
+ArtSigDecide == /\ pc = "ArtSigDecide" /\ Keep
+                /\ IF sigRes = "bad" THEN Reject("ArtSignature", "parseArtifactResponse")
+                   ELSE /\ sigReq' = (sigRes = "absent") /\ pc' = "ArtInner"
+                        /\ UNCHANGED <<hasSig, ai, cj, firstFail, accepted, asn, err, verdict, step, fired, sv, nv>>
 ArtInner == /\ pc = "ArtInner" /\ Keep
             /\ IF ~E.inner THEN Reject("InnerResponse", "parseArtifactResponse") ELSE Goto("RSig")
 
@@ -371,9 +493,13 @@ Plain(s) == SelectSeq(s, LAMBDA a : a.enc = "no")
 Visit == Enc(R.assns) \o Plain(R.assns)
 A == Visit[ai]
 
+\* :997 validateSignature(responseEl) unless a signed ArtifactResponse vouches for the content
 RSig == /\ pc = "RSig" /\ Keep
-        /\ hasSig' = (sigReq /\ R.sig) /\ pc' = "RDest"
-        /\ UNCHANGED <<sigReq, ai, cj, firstFail, accepted, asn, err, verdict, step, fired>>
+        /\ IF sigReq THEN CallVS("resp", "RSigNote") ELSE Goto("RDest")
+\* :999 whatever is not "no Signature element" counts as a signature; acting on a failed one is deferred
+RSigNote == /\ pc = "RSigNote" /\ Keep
+            /\ hasSig' = (sigRes # "absent") /\ respSig' = sigRes /\ pc' = "RDest"
+            /\ UNCHANGED <<sigReq, ai, cj, firstFail, accepted, asn, err, verdict, step, fired, vsEl, vsRet, sigRes, nv>>
 \* :1010 Destination is mandatory on a signed Response
 RDest == /\ pc = "RDest" /\ Keep
          /\ IF hasSig /\ ~R.dest THEN Reject("Destination", InnerWrapper) ELSE Goto("RReqID")
@@ -385,16 +511,18 @@ RIssuer == /\ pc = "RIssuer" /\ Keep
            /\ Deref("RespIssuerNil", ~R.iss, InnerWrapper, "RStatus")
 RStatus == /\ pc = "RStatus" /\ Keep
            /\ IF R.status # "ok" THEN Reject("Status", InnerWrapper) ELSE Goto("RSigDecide")
+\* :1041 a valid Response signature lifts the requirement from the assertions, a failed one is returned now
 RSigDecide == /\ pc = "RSigDecide" /\ Keep
-              /\ sigReq' = (sigReq /\ ~R.sig)
-              /\ pc' = IF Len(Visit) = 0 THEN "Finish" ELSE "ADecrypt"
-              /\ UNCHANGED <<hasSig, ai, cj, firstFail, accepted, asn, err, verdict, step, fired>>
+              /\ IF sigReq /\ respSig = "bad" THEN Reject("RespSignature", InnerWrapper)
+                 ELSE /\ sigReq' = (sigReq /\ respSig # "ok")
+                      /\ pc' = IF Len(Visit) = 0 THEN "Finish" ELSE "ADecrypt"
+                      /\ UNCHANGED <<hasSig, ai, cj, firstFail, accepted, asn, err, verdict, step, fired, sv, nv>>
 
 \* an assertion-level failure is remembered; the loop goes on with the next assertion
 NextAssn == IF ai + 1 > Len(Visit) THEN "Finish" ELSE "ADecrypt"
 FailAssnF(why) == /\ firstFail' = IF firstFail = "none" THEN why ELSE firstFail
                   /\ ai' = ai + 1 /\ cj' = 1 /\ pc' = NextAssn
-                  /\ UNCHANGED <<sigReq, hasSig, accepted, asn, err, verdict, step>>
+                  /\ UNCHANGED <<sigReq, hasSig, accepted, asn, err, verdict, step, sv, nv>>
 FailAssn(why) == FailAssnF(why) /\ UNCHANGED fired
 DerefA(site, absent, next) ==
   IF ~absent THEN Goto(next)
@@ -408,7 +536,9 @@ ADecrypt == /\ pc = "ADecrypt" /\ Keep
                ELSE DerefA("PlainRootNil", A.enc = "rootless", "ASig")
 \* parseAssertion :1161
 ASig == /\ pc = "ASig" /\ Keep
-        /\ IF sigReq /\ ~A.sig THEN FailAssn("AssnSignature") ELSE Goto("AIssuer")
+        /\ IF sigReq THEN CallVS("assn", "ASigDecide") ELSE Goto("AIssuer")
+ASigDecide == /\ pc = "ASigDecide" /\ Keep
+              /\ IF sigRes # "ok" THEN FailAssn("AssnSignature") ELSE Goto("AIssuer")
 \* :1189 Issuer is a value: absent reads as ""
 AIssuer == /\ pc = "AIssuer" /\ Keep
            /\ IF ~A.iss THEN FailAssn("AssnIssuer") ELSE Goto("ASubject")
@@ -421,7 +551,7 @@ AConf == /\ pc = "AConf" /\ Keep
             ELSE IF A.confs[cj] = "nodata"
                    THEN DerefA("ConfDataNil", TRUE, "AConf")
                    ELSE /\ cj' = cj + 1
-                        /\ UNCHANGED <<pc, sigReq, hasSig, ai, firstFail, accepted, asn, err, verdict, step, fired>>
+                        /\ UNCHANGED <<pc, sigReq, hasSig, ai, firstFail, accepted, asn, err, verdict, step, fired, sv, nv>>
 \* :1230 assertion.Conditions.NotBefore
 AConditions == /\ pc = "AConditions" /\ Keep
                /\ DerefA("ConditionsNil", A.cond = "absent", "AAudience")
@@ -429,7 +559,7 @@ AConditions == /\ pc = "AConditions" /\ Keep
 AAudience == /\ pc = "AAudience" /\ Keep
              /\ accepted' = IF accepted = 0 THEN ai ELSE accepted
              /\ ai' = ai + 1 /\ cj' = 1 /\ pc' = NextAssn
-             /\ UNCHANGED <<sigReq, hasSig, firstFail, asn, err, verdict, step, fired>>
+             /\ UNCHANGED <<sigReq, hasSig, firstFail, asn, err, verdict, step, fired, sv, nv>>
 Finish == /\ pc = "Finish" /\ Keep
           /\ IF accepted # 0 THEN Succeed
              ELSE Reject(IF firstFail # "none" THEN firstFail ELSE "NoAssertion", InnerWrapper)
@@ -438,8 +568,12 @@ Finish == /\ pc = "Finish" /\ Keep
 (* ValidateLogoutResponseForm :1644 / Redirect :1689 / validateLogoutResponse :1736 *)
 
 L == in.lo
-LoSig == /\ pc = "LoSig" /\ Keep
-         /\ IF ~L.sig THEN Reject("SigAbsent", "plain") ELSE Goto("LoDest")
+\* :1687 / :1737 validateSignature(doc.Root()): anything but success is returned
+LoSig == /\ pc = "LoSig" /\ Keep /\ CallVS("lo", "LoSigDecide")
+LoSigDecide == /\ pc = "LoSigDecide" /\ Keep
+               /\ CASE sigRes = "absent" -> Reject("SigAbsent", "plain")
+                    [] sigRes = "bad" -> Reject("Signature", "plain")
+                    [] OTHER -> Goto("LoDest")
 LoDest == /\ pc = "LoDest" /\ Keep
           /\ IF ~L.dest THEN Reject("Destination", "plain") ELSE Goto("LoTime")
 \* an absent IssueInstant is the zero instant
@@ -449,6 +583,53 @@ LoIssuer == /\ pc = "LoIssuer" /\ Keep
             /\ Deref("LogoutIssuerNil", ~L.iss, "plain", "LoStatus")
 LoStatus == /\ pc = "LoStatus" /\ Keep
             /\ IF L.status # "ok" THEN Reject("Status", "plain") ELSE Succeed
+
+----------------------------------------------------------------------------
+(* validateSignature :1282, getIDPSigningCerts :385, getCertBasedOnFingerprint :428, parseCert :460, *)
+(* fingerprint :475; then goxmldsig ValidationContext.Validate / verifyCertificate                    *)
+
+TC == in.trust
+K  == in.ki
+SigPresent == CASE vsEl = "art" -> E.sig [] vsEl = "resp" -> R.sig [] vsEl = "assn" -> A.sig [] vsEl = "lo" -> L.sig
+
+\* :1283 findChild(el, ds, "Signature")
+VSFind == /\ pc = "VSFind" /\ Keep
+          /\ IF ~SigPresent THEN ReturnVS("absent") ELSE Goto("VSTrust")
+\* :1292 / :1298 / :1304 exactly one of the three ways of finding the trusted certificates applies
+VSTrust == /\ pc = "VSTrust" /\ Keep
+           /\ Goto(CASE TC \in FpTrust -> "FpFind" [] TC = "pin" -> "PinCert" [] OTHER -> "MdCerts")
+\* getIDPSigningCerts ranges over the descriptors and their certificates (nothing is indexed) and parses
+\* every one; the metadata of these configurations is good (the idpmd family has the others)
+MdCerts == /\ pc = "MdCerts" /\ Keep /\ Goto("VSStrip")
+\* :1305 parseCert(*sp.IDPCertificate), a good certificate
+PinCert == /\ pc = "PinCert" /\ Keep /\ Goto("VSStrip")
+\* :429 el.FindElement("./Signature/KeyInfo/X509Data/X509Certificate") - nil without such an element
+FpFind == /\ pc = "FpFind" /\ Keep
+          /\ DerefVS("FpCertElNil", K \in NoCertEl, "FpChild")
+\* :433 exactly one child token is wanted; :437 indexes Child[0]
+FpChild == /\ pc = "FpChild" /\ Keep
+           /\ IF NChildren(K) > 1 THEN ReturnVS("bad")
+              ELSE DerefVS("FpCertChildIndex", NChildren(K) = 0, "FpType")
+\* :437 Child[0].(*etree.CharData)
+FpType == /\ pc = "FpType" /\ Keep
+          /\ DerefVS("FpCertChildType", K = "comment", "FpParse")
+\* :442 parseCert: white space removed, base64, x509
+FpParse == /\ pc = "FpParse" /\ Keep
+           /\ IF K \in {"ws", "garbage"} THEN ReturnVS("bad") ELSE Goto("FpMatch")
+\* :447 fingerprint with a known algorithm, :452 compared with the pinned one
+FpMatch == /\ pc = "FpMatch" /\ Keep
+           /\ IF K = "other" THEN ReturnVS("bad") ELSE Goto("VSStrip")
+\* :1335 without an X509Certificate element the KeyInfo is removed so that the trusted certificate is used
+VSStrip == /\ pc = "VSStrip" /\ Keep
+           /\ IF K \in NoCertEl THEN DerefVS("StripKeyInfoNil", K = "nokeyinfo", "DsigKey") ELSE Goto("DsigKey")
+\* goxmldsig verifyCertificate: without KeyInfo the only root is used (several: error); with KeyInfo the
+\* first X509Certificate must have text, decode, parse and be one of the roots
+DsigKey == /\ pc = "DsigKey" /\ Keep
+           /\ IF K \in NoCertEl THEN (IF NRoots(TC) = 1 THEN Goto("DsigVerify") ELSE ReturnVS("bad"))
+              ELSE IF K \in {"empty", "comment", "ws", "garbage", "other"} THEN ReturnVS("bad")
+              ELSE Goto("DsigVerify")
+\* the signature value is the trusted signer's over this element
+DsigVerify == /\ pc = "DsigVerify" /\ Keep /\ ReturnVS("ok")
 
 ----------------------------------------------------------------------------
 (* IdpAuthnRequest.Validate :396, getACSEndpoint :466, ServeSSO :228,      *)
@@ -493,7 +674,10 @@ HasRole == IF IsIDPMD THEN M.nidp >= 1 ELSE M.nsp >= 1
 \* a nested EntitiesDescriptor is not searched
 Findable == M.wrap = "entities" /\ HasRole
 MDParse == /\ pc = "MDParse" /\ Keep
-           /\ CASE in.entry \in {"parse", "fetch"} ->
+           /\ CASE IsNest ->
+                     \* the root is an EntitiesDescriptor: xml.Unmarshal into EntitiesDescriptor
+                     Goto("NestTok")
+                [] in.entry \in {"parse", "fetch"} ->
                      \* samlsp.ParseMetadata on SP metadata: an EntityDescriptor is returned as it is; inside an
                      \* EntitiesDescriptor it wants an IDPSSODescriptor
                      IF Wrapped THEN Reject("NoEntity", "plain") ELSE Succeed
@@ -504,6 +688,25 @@ MDParse == /\ pc = "MDParse" /\ Keep
                      IF Wrapped THEN Reject("WrongRoot", "plain") ELSE Goto("MDLookup")
                 [] in.entry = "parse-spuse" ->
                      IF Wrapped /\ ~Findable THEN Reject("NoEntity", "plain") ELSE Goto("SPUse")
+\* EntitiesDescriptor.UnmarshalXML metadata.go:80, once per start tag, d.DecodeElement inside it
+NDoc == NestDoc(in.shape, Levels(in.depth))
+Fatal(why) == /\ pc' = "Panic" /\ verdict' = "fatal" /\ step' = why
+              /\ UNCHANGED <<sigReq, hasSig, ai, cj, firstFail, accepted, asn, err, fired, sv, nv>>
+\* :81 depth := the decoder's count; :85 refuse beyond the bound; :87 count + 1; the call goes on the stack
+NestOpen == /\ pc = "NestTok" /\ pos <= Len(NDoc) /\ NDoc[pos] = "o" /\ Keep
+            /\ IF DepthRestore # "nobound" /\ ctr >= NestBound THEN Reject("TooDeep", "plain")
+               ELSE IF Len(frames) + 1 > NestStack THEN Fatal("StackExhausted")
+               ELSE /\ ctr' = ctr + 1 /\ frames' = Append(frames, ctr) /\ pos' = pos + 1
+                    /\ UNCHANGED <<pc, sigReq, hasSig, ai, cj, firstFail, accepted, asn, err, verdict, step, fired, sv>>
+\* :88 the deferred clean-up when the element is finished
+NestClose == /\ pc = "NestTok" /\ pos <= Len(NDoc) /\ NDoc[pos] = "c" /\ Keep
+             /\ ctr' = IF DepthRestore = "wipe" THEN 0 ELSE frames[Len(frames)]
+             /\ frames' = SubSeq(frames, 1, Len(frames) - 1) /\ pos' = pos + 1
+             /\ UNCHANGED <<pc, sigReq, hasSig, ai, cj, firstFail, accepted, asn, err, verdict, step, fired, sv>>
+\* the document is unmarshalled; the entity with the wanted role is a child of the outermost element
+NestEnd == /\ pc = "NestTok" /\ pos > Len(NDoc) /\ Keep
+           /\ IF in.entry = "put-sso" THEN Goto("MDLookup") ELSE Succeed
+
 \* the metadata is registered; a valid AuthnRequest arrives
 MDLookup == /\ pc = "MDLookup" /\ Keep /\ Goto("QACS")
 
@@ -520,12 +723,14 @@ SPTrust == /\ pc = "SPTrust" /\ Keep
 Terminated == pc \in {"done", "Panic"} /\ UNCHANGED vars
 
 Next == \/ Resolve \/ LoDispatch \/ B64 \/ Inflate \/ Validate \/ XRV \/ Root
-        \/ Envelope \/ Body \/ ArtResp \/ ArtIRT \/ ArtIssuer \/ ArtStatus \/ ArtSig \/ ArtInner
-        \/ RSig \/ RDest \/ RReqID \/ RIssuer \/ RStatus \/ RSigDecide
-        \/ ADecrypt \/ ASig \/ AIssuer \/ ASubject \/ AConf \/ AConditions \/ AAudience \/ Finish
-        \/ LoSig \/ LoDest \/ LoTime \/ LoIssuer \/ LoStatus
+        \/ Envelope \/ Body \/ ArtResp \/ ArtIRT \/ ArtIssuer \/ ArtStatus \/ ArtSig \/ ArtSigDecide \/ ArtInner
+        \/ RSig \/ RSigNote \/ RDest \/ RReqID \/ RIssuer \/ RStatus \/ RSigDecide
+        \/ ADecrypt \/ ASig \/ ASigDecide \/ AIssuer \/ ASubject \/ AConf \/ AConditions \/ AAudience \/ Finish
+        \/ LoSig \/ LoSigDecide \/ LoDest \/ LoTime \/ LoIssuer \/ LoStatus
+        \/ VSFind \/ VSTrust \/ MdCerts \/ PinCert \/ FpFind \/ FpChild \/ FpType \/ FpParse \/ FpMatch
+        \/ VSStrip \/ DsigKey \/ DsigVerify
         \/ QUnmarshal \/ QTime \/ QVersion \/ QIssuer \/ QACS \/ MakeAssertion \/ EncCertUse \/ EncCertAny \/ Respond
-        \/ MDParse \/ MDLookup \/ SPUse \/ SPTrust
+        \/ MDParse \/ NestOpen \/ NestClose \/ NestEnd \/ MDLookup \/ SPUse \/ SPTrust
         \/ Terminated
 Spec == Init /\ [][Next]_vars
 
@@ -534,7 +739,8 @@ Spec == Init /\ [][Next]_vars
 
 Done == pc = "done"
 
-\* "it never panics": no behaviour reaches the panic sink.  ("never hangs": every state other
+\* "it never panics": no behaviour reaches the sink of panics and fatal runtime errors (a recursion
+\* that the input can make as deep as it likes ends there).  ("never hangs": every state other
 \* than a terminal one has a successor - TLC's deadlock check, which stays switched on.)
 NoPanic == pc # "Panic"
 
